@@ -120,7 +120,8 @@ def run(chk):
         b.add_color_glyph(0x1F600, layers)
         chk.case(key=("v0", k), nontrivial=True)
         data = b.font(version=0)
-        convert_and_compare(chk, data, vb_region, f"COLRv0 {k}", {"kind": "colrv0", "layers": layers}, expect_var=(k % 2 == 1))
+        convert_and_compare(chk, data, vb_region, f"COLRv0 {k}", {"kind": "colrv0", "layers": layers},
+                            expect_var=(k % 2 == 1 and any(c != 0xFFFF for _, c in layers)))
         f = TTFont(io.BytesIO(data))
         svgs = colr_to_svg.colr_to_svg(lambda g: Rect(*vb_region(f, g)), f)
         text = svgs["u1F600"].tostring()
